@@ -246,6 +246,8 @@ Section Refine.
     destruct (fs dst) as [[c|t|]|]; try reflexivity. congruence.
   Qed.
 
+  Ltac red_pstep := unfold LocalProgs.pstep, tmpb, tmpm, tmpl; cbn [p_pc p_pid p_cnt p_todo p_outs set_pc bump finish whole start].
+
   Section Calls.
     Variable pid cnt : nat.
     Variable todo : list opcall.
@@ -268,9 +270,9 @@ Section Refine.
     Proof.
       intros fs d r next n Hp [Hd|Hd].
       - exists (upd fs d (Some NDir)). split; [|split; [apply upd_same|intros x Hx; apply upd_other; exact Hx]].
-        unfold LocalProgs.pstep. cbn [p_pc]. unfold do_mkdir. rewrite Hd. rewrite (isdir_of_dir _ _ Hp). reflexivity.
+        red_pstep. unfold do_mkdir. rewrite Hd. rewrite (isdir_of_dir _ _ Hp). reflexivity.
       - exists fs. split; [|split; [exact Hd|reflexivity]].
-        unfold LocalProgs.pstep. cbn [p_pc]. unfold do_mkdir. rewrite Hd. rewrite (isdir_of_dir _ _ Hd). reflexivity.
+        red_pstep. unfold do_mkdir. rewrite Hd. rewrite (isdir_of_dir _ _ Hd). reflexivity.
     Qed.
 
     Lemma mkdirs_exist : forall dirs fs next, (forall d, In d dirs -> fs d = Some NDir) ->
@@ -278,7 +280,7 @@ Section Refine.
     Proof.
       induction dirs as [|d r IH]; intros fs next H; [apply steps_refl|].
       eapply steps_step; [reflexivity| |apply IH; intros d' Hd'; apply H; right; exact Hd'].
-      unfold LocalProgs.pstep. cbn [p_pc whole]. unfold do_mkdir. rewrite (H d (or_introl eq_refl)).
+      red_pstep. unfold do_mkdir. rewrite (H d (or_introl eq_refl)).
       rewrite (isdir_of_dir _ _ (H d (or_introl eq_refl))). reflexivity.
     Qed.
 
@@ -314,9 +316,10 @@ Section Refine.
       intros fs k rest Ht. destruct rest as [|a r].
       - exists fs. split; [apply steps_one; reflexivity|]. split; [exact Ht|reflexivity].
       - exists (upd fs (tmp_of (blob k) pid cnt) (Some (NFile (a :: r)))). split; [|split].
-        + eapply steps_step; [reflexivity| |apply steps_one; reflexivity].
-          unfold LocalProgs.pstep. cbn [p_pc whole]. cbv zeta. rewrite whole_chunk by discriminate.
-          rewrite firstn_all, skipn_all. unfold tmpb, do_append. cbn [p_pid p_cnt]. rewrite Ht. reflexivity.
+        + eapply steps_step; [reflexivity| |].
+          { red_pstep. cbv zeta. rewrite whole_chunk by discriminate.
+            rewrite firstn_all, skipn_all. unfold do_append. rewrite Ht. reflexivity. }
+          apply steps_one; reflexivity.
         + apply upd_same.
         + intros x Hx. apply upd_other. exact Hx.
     Qed.
@@ -329,11 +332,320 @@ Section Refine.
       intros fs k rest Ht. destruct rest as [|a r].
       - exists fs. split; [apply steps_one; reflexivity|]. split; [exact Ht|reflexivity].
       - exists (upd fs (tmp_of (meta k) pid cnt) (Some (NFile (a :: r)))). split; [|split].
-        + eapply steps_step; [reflexivity| |apply steps_one; reflexivity].
-          unfold LocalProgs.pstep. cbn [p_pc whole]. cbv zeta. rewrite whole_chunk by discriminate.
-          rewrite firstn_all, skipn_all. unfold tmpm, do_append. cbn [p_pid p_cnt]. rewrite Ht. reflexivity.
+        + eapply steps_step; [reflexivity| |].
+          { red_pstep. cbv zeta. rewrite whole_chunk by discriminate.
+            rewrite firstn_all, skipn_all. unfold do_append. rewrite Ht. reflexivity. }
+          apply steps_one; reflexivity.
         + apply upd_same.
         + intros x Hx. apply upd_other. exact Hx.
     Qed.
   End Calls.
+  Lemma existsb_path_In : forall x l, existsb (path_eqb x) l = true <-> In x l.
+  Proof.
+    intros x l. rewrite existsb_exists. split.
+    - intros (y & Hy & E). apply path_eqb_eq in E. subst y. exact Hy.
+    - intro H. exists x. split; [exact H|apply path_eqb_refl].
+  Qed.
+
+  Lemma existsb_path_notin : forall x l, ~ In x l -> existsb (path_eqb x) l = false.
+  Proof.
+    intros x l H. destruct (existsb (path_eqb x) l) eqn:E; [|reflexivity]. apply existsb_path_In in E. contradiction.
+  Qed.
+
+  Lemma blobs_dir_neq_blob : forall k, blobs_dir <> blob k.
+  Proof.
+    intros k E. apply (f_equal (@List.length comp)) in E. unfold LocalProgs.blob in E. rewrite app_length in E.
+    simpl in E. lia.
+  Qed.
+  Lemma blobs_dir_neq_meta : forall k, blobs_dir <> meta k.
+  Proof.
+    intros k E. apply (f_equal (@List.length comp)) in E. unfold LocalProgs.meta in E. rewrite app_length in E.
+    simpl in E. lia.
+  Qed.
+
+  (* the blob file: created under a private name, written, renamed *)
+  Lemma blob_phase : forall pid cnt todo outs fs k,
+    visible root = true -> fs blobs_dir = Some NDir -> fs (tmp_of (blob k) pid cnt) = None -> fs (blob k) <> Some NDir ->
+    exists fs', steps fs (Proc pid cnt (PSB_create k) todo outs) fs' (Proc pid (S cnt) (PSM_create k) todo outs) /\
+                forall x, fs' x = if path_eqb x (blob k) then Some (NFile (enc k)) else fs x.
+  Proof.
+    intros pid cnt todo outs fs k Hvr Hbd Ht Hb.
+    set (t := tmp_of (blob k) pid cnt) in *.
+    assert (Hne : blob k <> t) by (apply tmp_of_neq_visible; apply blob_visible; exact Hvr).
+    assert (Hne' : blobs_dir <> t) by (apply tmp_of_neq_visible; apply blobs_dir_visible; exact Hvr).
+    destruct (sb_write_phase pid cnt todo outs (upd fs t (Some (NFile []))) k (enc k)) as (fs2 & Hw & Hw1 & Hw2).
+    { apply upd_same. }
+    fold t in Hw1, Hw2.
+    exists (upd (upd fs2 (blob k) (Some (NFile (enc k)))) t None). split.
+    - eapply steps_step; [reflexivity| |].
+      { red_pstep. fold t.
+        rewrite do_create_eq; [reflexivity|exact Ht|].
+        unfold t. rewrite parent_tmp_of, parent_blob. exact Hbd. }
+      eapply steps_trans; [exact Hw|].
+      eapply steps_step; [reflexivity|reflexivity|].
+      apply steps_one; [reflexivity|].
+      red_pstep. fold t.
+      rewrite (do_replace_eq fs2 t (blob k) (NFile (enc k))); [reflexivity|exact Hw1| |].
+      + rewrite (Hw2 _ Hne). rewrite (upd_other _ _ _ _ Hne). exact Hb.
+      + rewrite parent_blob. rewrite (Hw2 _ Hne'). rewrite (upd_other _ _ _ _ Hne'). exact Hbd.
+    - intro x. destruct (path_eq_dec x t) as [E|E].
+      + subst x. rewrite upd_same. rewrite (path_eqb_neq t (blob k)); [congruence|congruence].
+      + rewrite (upd_other _ _ _ _ E). destruct (path_eqb x (blob k)) eqn:E2.
+        * apply path_eqb_eq in E2. subst x. apply upd_same.
+        * rewrite upd_other; [|intro E3; subst x; rewrite path_eqb_refl in E2; discriminate].
+          rewrite (Hw2 _ E). apply upd_other. exact E.
+  Qed.
+
+  Lemma meta_phase : forall pid cnt todo outs fs k,
+    visible root = true -> fs blobs_dir = Some NDir -> fs (tmp_of (meta k) pid cnt) = None -> fs (meta k) <> Some NDir ->
+    exists fs', steps fs (Proc pid cnt (PSM_create k) todo outs) fs' (Proc pid (S cnt) PIdle todo (outs ++ [RUnit])) /\
+                forall x, fs' x = if path_eqb x (meta k) then Some (NFile (menc k)) else fs x.
+  Proof.
+    intros pid cnt todo outs fs k Hvr Hbd Ht Hb.
+    set (t := tmp_of (meta k) pid cnt) in *.
+    assert (Hne : meta k <> t) by (apply tmp_of_neq_visible; apply meta_visible; exact Hvr).
+    assert (Hne' : blobs_dir <> t) by (apply tmp_of_neq_visible; apply blobs_dir_visible; exact Hvr).
+    destruct (sm_write_phase pid cnt todo outs (upd fs t (Some (NFile []))) k (menc k)) as (fs2 & Hw & Hw1 & Hw2).
+    { apply upd_same. }
+    fold t in Hw1, Hw2.
+    exists (upd (upd fs2 (meta k) (Some (NFile (menc k)))) t None). split.
+    - eapply steps_step; [reflexivity| |].
+      { red_pstep. fold t.
+        rewrite do_create_eq; [reflexivity|exact Ht|].
+        unfold t. rewrite parent_tmp_of, parent_meta. exact Hbd. }
+      eapply steps_trans; [exact Hw|].
+      eapply steps_step; [reflexivity|reflexivity|].
+      apply steps_one; [reflexivity|].
+      red_pstep. fold t.
+      rewrite (do_replace_eq fs2 t (meta k) (NFile (menc k))); [reflexivity|exact Hw1| |].
+      + rewrite (Hw2 _ Hne). rewrite (upd_other _ _ _ _ Hne). exact Hb.
+      + rewrite parent_meta. rewrite (Hw2 _ Hne'). rewrite (upd_other _ _ _ _ Hne'). exact Hbd.
+    - intro x. destruct (path_eq_dec x t) as [E|E].
+      + subst x. rewrite upd_same. rewrite (path_eqb_neq t (meta k)); [congruence|congruence].
+      + rewrite (upd_other _ _ _ _ E). destruct (path_eqb x (meta k)) eqn:E2.
+        * apply path_eqb_eq in E2. subst x. apply upd_same.
+        * rewrite upd_other; [|intro E3; subst x; rewrite path_eqb_refl in E2; discriminate].
+          rewrite (Hw2 _ E). apply upd_other. exact E.
+  Qed.
+
+  Definition store_fs (fs : fsys) (k : bytes) : fsys := fun x =>
+    if path_eqb x (meta k) then Some (NFile (menc k))
+    else if path_eqb x (blob k) then Some (NFile (enc k)) else fs x.
+
+  Lemma store_steps : forall pid cnt todo outs fs k,
+    visible root = true -> good_key k = true -> fs blobs_dir = Some NDir ->
+    (forall x, visible x = false -> fs x = None) ->
+    fs (blob k) <> Some NDir -> fs (meta k) <> Some NDir ->
+    exists fs', steps fs (Proc pid cnt PIdle (OpStore k :: todo) outs) fs' (Proc pid (S (S cnt)) PIdle todo (outs ++ [RUnit])) /\
+                forall x, fs' x = store_fs fs k x.
+  Proof.
+    intros pid cnt todo outs fs k Hvr Hk Hbd Hnt Hb Hm.
+    assert (Htmp : forall y c, fs (tmp_of y pid c) = None).
+    { intros y c. apply Hnt. rewrite tmp_of_shape. apply tmp_not_visible. }
+    destruct (blob_phase pid cnt todo outs fs k Hvr Hbd (Htmp _ _) Hb) as (fs1 & Hs1 & Hf1).
+    assert (Hbm : meta k <> blob k) by (intro E; symmetry in E; exact (blob_not_meta root k k Hk E)).
+    destruct (meta_phase pid (S cnt) todo outs fs1 k Hvr) as (fs2 & Hs2 & Hf2).
+    { rewrite Hf1. rewrite (path_eqb_neq _ _ (blobs_dir_neq_blob k)). exact Hbd. }
+    { rewrite Hf1. rewrite path_eqb_neq; [apply Htmp|]. intro E. symmetry in E. revert E. apply tmp_of_neq_visible.
+      apply blob_visible. exact Hvr. }
+    { rewrite Hf1. rewrite (path_eqb_neq _ _ Hbm). exact Hm. }
+    exists fs2. split.
+    - eapply steps_trans; [apply st_start|]. eapply steps_trans; [exact Hs1|exact Hs2].
+    - intro x. rewrite Hf2. unfold store_fs. destruct (path_eqb x (meta k)); [reflexivity|]. apply Hf1.
+  Qed.
+
+  (* --- sync_paths, one item --- *)
+  Definition anc_dirs (loc : path) : list path := dirs_between data (skipn (List.length data) (parent loc)).
+  Definition item_fs (fs : fsys) (loc : path) (k : bytes) : fsys := fun x =>
+    if existsb (path_eqb x) (anc_dirs loc) then Some NDir
+    else if path_eqb x loc then Some (NLink (blob k)) else fs x.
+
+  Lemma dirs_between_complete : forall rest base a b, a <> [] -> rest = a ++ b -> In (base ++ a) (dirs_between base rest).
+  Proof.
+    induction rest as [|c r IH]; intros base a b Ha E.
+    - symmetry in E. apply app_eq_nil in E as [E _]. congruence.
+    - destruct a as [|c' a']; [congruence|]. simpl in E. inversion E; subst c'. cbn [dirs_between].
+      destruct a' as [|c2 a2].
+      + left. reflexivity.
+      + right. replace (base ++ c :: c2 :: a2) with ((base ++ [c]) ++ c2 :: a2) by (rewrite <- app_assoc; reflexivity).
+        apply IH with b; [discriminate|exact H1].
+  Qed.
+
+  Lemma anc_dirs_spec : forall loc d, good_loc loc ->
+    (In d (anc_dirs loc) <-> exists a b, a <> [] /\ b <> [] /\ d = data ++ a /\ loc = d ++ b).
+  Proof.
+    intros loc d Hl. split; [apply sync_dirs_spec; exact Hl|].
+    intros (a & b & Ha & Hb & Hd & Hloc). destruct Hl as [_ (segs & Hne & Hs)]. unfold anc_dirs.
+    rewrite Hs. rewrite (parent_loc data segs Hne). rewrite skipn_app_exact. subst d.
+    rewrite Hs in Hloc. rewrite <- app_assoc in Hloc. apply app_inv_head in Hloc. subst segs.
+    destruct (exists_last Hb) as (b' & c & Eb). subst b.
+    apply dirs_between_complete with b'; [exact Ha|]. rewrite app_assoc. rewrite removelast_last. reflexivity.
+  Qed.
+
+  Lemma parent_in_anc : forall loc, good_loc loc -> parent loc = data \/ In (parent loc) (anc_dirs loc).
+  Proof.
+    intros loc Hl. pose proof Hl as [_ (segs & Hne & Hs)].
+    destruct (exists_last Hne) as (a & c & Ea). subst segs. destruct a as [|c' a'].
+    - left. rewrite Hs. apply parent_snoc.
+    - right. apply (anc_dirs_spec loc _ Hl). exists (c' :: a'), [c]. split; [discriminate|]. split; [discriminate|].
+      rewrite Hs. rewrite app_assoc. rewrite parent_snoc. split; reflexivity.
+  Qed.
+
+  Lemma anc_visible : forall loc d, good_loc loc -> In d (anc_dirs loc) -> visible d = true.
+  Proof.
+    intros loc d Hl Hd. apply (anc_dirs_spec loc d Hl) in Hd as (a & b & _ & _ & _ & E). destruct Hl as [Hv _].
+    rewrite E in Hv. eapply visible_app_l. exact Hv.
+  Qed.
+
+  Lemma anc_neq_loc : forall loc, good_loc loc -> ~ In loc (anc_dirs loc).
+  Proof.
+    intros loc Hl Hd. apply (anc_dirs_spec loc loc Hl) in Hd as (a & b & _ & Hb & _ & E).
+    rewrite <- (app_nil_r loc) in E at 1. apply app_inv_head in E. congruence.
+  Qed.
+
+  Lemma item_steps : forall pid cnt todo outs fs loc k items,
+    good_loc loc -> fs data = Some NDir ->
+    (forall x, visible x = false -> fs x = None) ->
+    (forall d, In d (anc_dirs loc) -> fs d = None \/ fs d = Some NDir) ->
+    (fs_exists fs (parent loc) = true -> forall d, In d (anc_dirs loc) -> fs d = Some NDir) ->
+    (fs loc = None \/ exists t, fs loc = Some (NLink t)) ->
+    exists fs' cnt', steps fs (Proc pid cnt (PSP_next ((loc, k) :: items)) todo outs)
+                           fs' (Proc pid cnt' (PSP_next items) todo outs) /\
+                     forall x, fs' x = item_fs fs loc k x.
+  Proof.
+    intros pid cnt todo outs fs loc k items Hl Hdata Hnt Hanc Hclosed Hloc.
+    pose proof (good_loc_visible data loc Hl) as Hvl.
+    (* phase 1: the directories *)
+    assert (Hph1 : exists fs1, steps fs (Proc pid cnt (PSP_next ((loc, k) :: items)) todo outs)
+                                     fs1 (Proc pid cnt (PSP_check loc k items) todo outs) /\
+                   forall x, fs1 x = if existsb (path_eqb x) (anc_dirs loc) then Some NDir else fs x).
+    { destruct (fs_exists fs (parent loc)) eqn:Ee.
+      - exists fs. split.
+        + apply steps_one; [reflexivity|]. red_pstep. rewrite Ee. reflexivity.
+        + intro x. destruct (existsb (path_eqb x) (anc_dirs loc)) eqn:E; [|reflexivity].
+          apply existsb_path_In in E. apply Hclosed; [reflexivity|exact E].
+      - destruct (mkdirs_between pid cnt todo outs (skipn (List.length data) (parent loc)) data fs (PSP_check loc k items) Hdata Hanc)
+          as (fs1 & Hs & Hf).
+        exists fs1. split; [|exact Hf].
+        eapply steps_step; [reflexivity| |].
+        { red_pstep. rewrite Ee. reflexivity. }
+        eapply steps_trans; [exact Hs|]. apply st_mkdirs_nil_check. }
+    destruct Hph1 as (fs1 & Hs1 & Hf1).
+    assert (Hpar : fs1 (parent loc) = Some NDir).
+    { rewrite Hf1. destruct (parent_in_anc loc Hl) as [E|E].
+      - rewrite E. destruct (existsb (path_eqb data) (anc_dirs loc)); [reflexivity|exact Hdata].
+      - rewrite (proj2 (existsb_path_In _ _) E). reflexivity. }
+    assert (Hloc1 : fs1 loc = fs loc).
+    { rewrite Hf1. rewrite (existsb_path_notin _ _ (anc_neq_loc loc Hl)). reflexivity. }
+    (* phase 2: the link *)
+    destruct (fs_exists fs1 loc && path_eqb (fs_realpath fs1 loc) (blob k)) eqn:Ec.
+    - exists fs1, cnt. split.
+      + eapply steps_trans; [exact Hs1|]. apply steps_one; [reflexivity|].
+        red_pstep. rewrite Ec. reflexivity.
+      + intro x. unfold item_fs. rewrite Hf1. destruct (existsb (path_eqb x) (anc_dirs loc)); [reflexivity|].
+        destruct (path_eqb x loc) eqn:E; [|reflexivity]. apply path_eqb_eq in E. subst x.
+        apply andb_true_iff in Ec as [Ec1 Ec2]. unfold fs_exists, fs_realpath in *. rewrite Hloc1 in Ec1, Ec2.
+        destruct Hloc as [Hn|[t Ht]].
+        * rewrite Hn in Ec1. discriminate.
+        * rewrite Ht in Ec2. apply path_eqb_eq in Ec2. congruence.
+    - set (t := tmp_of loc pid cnt).
+      assert (Htv : visible t = false) by (unfold t; rewrite tmp_of_shape; apply tmp_not_visible).
+      assert (Ht1 : fs1 t = None).
+      { rewrite Hf1. rewrite existsb_path_notin; [apply Hnt; exact Htv|].
+        intro Hin. apply (anc_visible loc t Hl) in Hin. congruence. }
+      assert (Hlt : loc <> t) by (intro E; rewrite <- E in Htv; congruence).
+      assert (Hpt : parent loc <> t) by (intro E; rewrite <- E in Htv; rewrite (parent_visible _ Hvl) in Htv; discriminate).
+      exists (upd (upd (upd fs1 t (Some (NLink (blob k)))) loc (Some (NLink (blob k)))) t None), (S cnt). split.
+      + eapply steps_trans; [exact Hs1|].
+        eapply steps_step; [reflexivity| |].
+        { red_pstep. rewrite Ec. reflexivity. }
+        eapply steps_step; [reflexivity| |].
+        { red_pstep. fold t.
+          rewrite do_symlink_eq; [reflexivity|exact Ht1|]. unfold t. rewrite parent_tmp_of. exact Hpar. }
+        apply steps_one; [reflexivity|].
+        red_pstep. fold t.
+        rewrite (do_replace_eq _ t loc (NLink (blob k))); [reflexivity|apply upd_same| |].
+        * rewrite (upd_other _ _ _ _ Hlt). rewrite Hloc1. destruct Hloc as [Hn|[t' Ht']]; congruence.
+        * rewrite (upd_other _ _ _ _ Hpt). exact Hpar.
+      + intro x. unfold item_fs. destruct (path_eq_dec x t) as [E|E].
+        * subst x. rewrite upd_same. rewrite existsb_path_notin.
+          -- rewrite (path_eqb_neq t loc); [symmetry; apply Hnt; exact Htv|congruence].
+          -- intro Hin. apply (anc_visible loc t Hl) in Hin. congruence.
+        * rewrite (upd_other _ _ _ _ E). destruct (path_eqb x loc) eqn:E2.
+          -- apply path_eqb_eq in E2. subst x. rewrite upd_same.
+             rewrite (existsb_path_notin _ _ (anc_neq_loc loc Hl)). reflexivity.
+          -- rewrite upd_other; [|intro E3; subst x; rewrite path_eqb_refl in E2; discriminate].
+             rewrite (upd_other _ _ _ _ E). apply Hf1.
+  Qed.
+
+  (* --- readers --- *)
+  Lemma has_steps : forall pid cnt todo outs fs k,
+    steps fs (Proc pid cnt PIdle (OpHas k :: todo) outs) fs (Proc pid cnt PIdle todo (outs ++ [RBool (fs_exists fs (meta k))])).
+  Proof. intros. eapply steps_step; [reflexivity|reflexivity|]. apply steps_one; reflexivity. Qed.
+
+  Lemma fetch_present : forall pid cnt todo outs fs k m c,
+    fs (meta k) = Some (NFile m) -> fs (blob k) = Some (NFile c) ->
+    steps fs (Proc pid cnt PIdle (OpFetch k :: todo) outs) fs (Proc pid cnt PIdle todo (outs ++ [RBlob k m c])).
+  Proof.
+    intros pid cnt todo outs fs k m c Hm Hb.
+    eapply steps_step; [reflexivity|reflexivity|].
+    eapply steps_step; [reflexivity| |].
+    { red_pstep. unfold fs_exists. rewrite Hb. reflexivity. }
+    eapply steps_step; [reflexivity| |].
+    { red_pstep. unfold fs_exists. rewrite Hm. reflexivity. }
+    eapply steps_step; [reflexivity| |].
+    { red_pstep. unfold fs_read. rewrite Hm. reflexivity. }
+    apply steps_one; [reflexivity|].
+    red_pstep. unfold fs_read. rewrite Hb. reflexivity.
+  Qed.
+
+  Lemma fetch_absent : forall pid cnt todo outs fs k,
+    fs (meta k) = None -> (fs (blob k) = None \/ exists c, fs (blob k) = Some (NFile c)) ->
+    steps fs (Proc pid cnt PIdle (OpFetch k :: todo) outs) fs (Proc pid cnt PIdle todo (outs ++ [RNone])).
+  Proof.
+    intros pid cnt todo outs fs k Hm Hb.
+    eapply steps_step; [reflexivity|reflexivity|].
+    destruct Hb as [Hb|[c Hb]].
+    - apply steps_one; [reflexivity|].
+      red_pstep. unfold fs_exists. rewrite Hb. reflexivity.
+    - eapply steps_step; [reflexivity| |].
+      { red_pstep. unfold fs_exists. rewrite Hb. reflexivity. }
+      apply steps_one; [reflexivity|].
+      red_pstep. unfold fs_exists. rewrite Hm. reflexivity.
+  Qed.
+
+  Lemma fpath_absent : forall pid cnt todo outs fs loc, fs loc = None ->
+    steps fs (Proc pid cnt PIdle (OpFetchPath loc :: todo) outs) fs (Proc pid cnt PIdle todo (outs ++ [RErr])).
+  Proof.
+    intros pid cnt todo outs fs loc Hn.
+    eapply steps_step; [reflexivity|reflexivity|].
+    destruct (fs_exists fs (parent loc)) eqn:Ee.
+    - eapply steps_step; [reflexivity| |].
+      { red_pstep. rewrite Ee. reflexivity. }
+      apply steps_one; [reflexivity|].
+      red_pstep. unfold fs_exists. rewrite Hn. reflexivity.
+    - apply steps_one; [reflexivity|].
+      red_pstep. rewrite Ee. reflexivity.
+  Qed.
+
+  Lemma fpath_present : forall pid cnt todo outs fs loc t c,
+    fs (parent loc) = Some NDir -> fs loc = Some (NLink t) -> fs t = Some (NFile c) ->
+    steps fs (Proc pid cnt PIdle (OpFetchPath loc :: todo) outs) fs (Proc pid cnt PIdle todo (outs ++ [RKey t])).
+  Proof.
+    intros pid cnt todo outs fs loc t c Hp Hl Ht.
+    eapply steps_step; [reflexivity|reflexivity|].
+    eapply steps_step; [reflexivity| |].
+    { red_pstep. unfold fs_exists. rewrite Hp. reflexivity. }
+    eapply steps_step; [reflexivity| |].
+    { red_pstep. unfold fs_exists. rewrite Hl, Ht. reflexivity. }
+    apply steps_one; [reflexivity|].
+    red_pstep. unfold fs_realpath. rewrite Hl. reflexivity.
+  Qed.
+
+  Lemma init_steps : forall pid cnt todo outs fs, (forall d, In d init_dirs -> fs d = Some NDir) ->
+    steps fs (Proc pid cnt PIdle (OpInit :: todo) outs) fs (Proc pid cnt PIdle todo (outs ++ [RUnit])).
+  Proof.
+    intros pid cnt todo outs fs H. eapply steps_trans; [apply st_start|]. cbn [start].
+    eapply steps_trans; [apply mkdirs_exist; exact H|]. apply st_mkdirs_nil_idle.
+  Qed.
 End Refine.
